@@ -87,6 +87,9 @@ type Op struct {
 	Status  string  `json:"status,omitempty"`
 	Entries []Entry `json:"entries,omitempty"`
 	NoWait  bool    `json:"nowait,omitempty"` // do not wait for quiescence after this op (store/expire only)
+	// await with a context that is already cancelled: if the key is present the response is queued during
+	// registration and Go's select picks the response or ctx.Done() at random
+	PreCancel bool `json:"precancel,omitempty"`
 	Q       int     `json:"q,omitempty"`
 	Key     *Key    `json:"key,omitempty"`
 	Comm    int     `json:"comm,omitempty"`
@@ -546,6 +549,9 @@ func runScript(t *testing.T, script []Op) []string {
 					t.Fatalf("bad key kind %q", k.K)
 				}
 				labels = append(labels, fmt.Sprintf("LAwaitReg %d %s", q, kterm))
+				if op.PreCancel {
+					cancel()
+				}
 				go func() {
 					s, err := call()
 					results <- readerResult{q: q, key: kterm, content: s, err: err}
@@ -721,7 +727,7 @@ func (g *gen) key() *Key {
 
 func (g *gen) await() Op {
 	g.nextQ++
-	return Op{Op: "await", Q: g.nextQ, Key: g.key()}
+	return Op{Op: "await", Q: g.nextQ, Key: g.key(), PreCancel: g.pct(6)}
 }
 
 func (g *gen) expire() Op {
@@ -842,7 +848,8 @@ func genTemplate(r *rand.Rand, which int) []Op {
 		a := Entry{K: "agg", Slot: sl, Data: 1, Comm: 0, Bits: 1}
 		s1 := st("agg", sl, a)
 		s1.NoWait = true
-		return []Op{aw(1, k), aw(2, k), aw(3, k), {Op: "cancel", Q: 2}, s1, {Op: "cancel", Q: 3}, aw(4, k)}
+		pc := func(q int) Op { return Op{Op: "await", Q: q, Key: &k, PreCancel: true} }
+		return []Op{pc(9), aw(1, k), aw(2, k), aw(3, k), {Op: "cancel", Q: 2}, s1, {Op: "cancel", Q: 3}, aw(4, k), pc(5), pc(6), pc(7), pc(8)}
 	case 10: // attester buckets are indexed by Duty.Slot, keys by Data.Slot
 		e := Entry{K: "att", Pk: 1, DSlot: sl + 1, Slot: sl, Comm: 1, VIdx: 1, Head: 1, Src: 1, Tgt: 1}
 		e2 := Entry{K: "att", Pk: 2, DSlot: sl, Slot: sl, Comm: 2, VIdx: 2, Head: 1, Src: 1, Tgt: 1}
